@@ -8,11 +8,22 @@
                              in-range idx — "t is the lazy view, materialised"
      good_view s             the TensorRef contract of a source: valid view shape, element count
                              within usize, an element at every in-range index
-     tensor_inv t            what the validating constructors establish (Proofs/C01P.v) *)
+     tensor_inv t            what the validating constructors establish (Proofs/C01P.v)
+     constructed s           s was built by the constructors of the source-term language
+                             (Tensor::from, then any chain of TensorReverse / TensorRange /
+                             TensorMask / TensorAccess / TensorTranspose / TensorRename ::from
+                             that returned Ok) — Proofs/SrcWfP.v
+     contract s              the TensorRef contract: valid view shape, element count within
+                             usize, an element EXACTLY at the indexes inside the view shape
+   The theorems of the first part are stated for any source satisfying good_view / src_total;
+   C13_contract proves that contract for every constructed source (by induction on the term),
+   and the `_constructed` theorems at the end restate the main results with no hypothesis on
+   the source other than `constructed`. *)
 From Coq Require Import List ZArith NArith Bool Arith.
 From EasyML Require Import Base.Sx Model.Shape Model.Tensor Model.TSource Model.ShapeIter
   Model.Transform Proofs.ShapeP Proofs.C01P Proofs.OdometerP Proofs.C09P Proofs.C13P Proofs.C13bP
-  Proofs.SwapLoopP Proofs.C13SymP Proofs.C09OwnedP Proofs.C13MutP.
+  Proofs.SwapLoopP Proofs.C13SymP Proofs.C09OwnedP Proofs.C13MutP Proofs.SrcWfP Proofs.SrcLensP
+  Proofs.C13CtorP.
 Import ListNotations.
 Open Scope N_scope.
 
@@ -228,6 +239,115 @@ Theorem C13_similar_refl : forall A (eqb : A -> A -> bool),
   (forall x y, eqb x y = true <-> x = y) -> forall l : tsrc A, tensor_similarity eqb l l = true.
 Proof. exact @similarity_refl. Qed.
 
+(* ---------------- every constructed source meets the contract ---------------- *)
+
+(* the TensorRef contract, by induction on the source term: unique names, non-zero lengths,
+   element count within usize, and get is Some exactly inside the view shape *)
+Theorem C13_contract : forall A (s : tsrc A), constructed s ->
+  valid_shape (src_shape s) /\ elements (src_shape s) <= usize_max /\
+  forall idx, length idx = length (src_shape s) ->
+    (in_range idx (lens_of (src_shape s)) <-> exists x, src_get s idx = Some x).
+Proof. exact @constructed_contract. Qed.
+
+Theorem C13_constructed_good_view : forall A (s : tsrc A), constructed s -> good_view s.
+Proof. exact @constructed_good_view. Qed.
+
+(* each constructor that returns Ok establishes the stored-field invariants src_wf, and src_wf
+   gives the contract *)
+Theorem C13_constructed_wf : forall A (s : tsrc A), constructed s -> src_wf s.
+Proof. exact @constructed_wf. Qed.
+
+Theorem C13_wf_contract : forall A (s : tsrc A), src_wf s -> contract s.
+Proof. exact @wf_contract. Qed.
+
+(* every source term the case language of the correspondence decodes is constructed *)
+Theorem C13_case_language_constructed : forall fuel sx s, dsrc fuel sx = Some (Ok s) -> constructed s.
+Proof. exact dsrc_constructed. Qed.
+
+(* the TensorMut contract: in-range writes behave like a lens, for every well-formed source *)
+Theorem C13_wf_lens : forall A (s : tsrc A), src_wf s -> forall idx v,
+  in_range idx (lens_of (src_shape s)) ->
+  exists s', src_set s idx v = Some s' /\ src_wf s' /\ src_shape s' = src_shape s /\
+             src_get s' idx = Some v /\
+             forall idx', in_range idx' (lens_of (src_shape s)) -> idx' <> idx ->
+                          src_get s' idx' = src_get s idx'.
+Proof. exact @wf_lens. Qed.
+
+(* the main results with no hypothesis on the source other than `constructed` *)
+Theorem C13_reorder_constructed : forall A (s : tsrc A) dims,
+  constructed s -> length dims = length (src_shape s) ->
+  match dm_new (names_of (src_shape s)) dims with
+  | Some tbl => exists t, reorder s dims = Ok t /\
+                          materialises t (src_shape (TAccess s tbl)) (src_get (TAccess s tbl))
+  | None => reorder s dims = Panic
+  end.
+Proof. exact @ctor_reorder. Qed.
+
+Theorem C13_transpose_constructed : forall A (s : tsrc A) dims,
+  constructed s -> length dims = length (src_shape s) ->
+  match dm_new (names_of (src_shape s)) dims with
+  | Some tbl => exists t, transpose s dims = Ok t /\
+                          materialises t (src_shape (TTranspose s tbl)) (src_get (TTranspose s tbl))
+  | None => transpose s dims = Panic
+  end.
+Proof. exact @ctor_transpose. Qed.
+
+Theorem C13_map_constructed : forall A B (f : A -> B) (s : tsrc A), constructed s ->
+  exists t, view_map f s = Ok t /\
+            materialises t (src_shape s) (fun idx => option_map f (src_get s idx)).
+Proof. exact @ctor_map. Qed.
+
+Theorem C13_map_with_index_constructed : forall A B (f : list N -> A -> B) (s : tsrc A), constructed s ->
+  exists t, view_map_with_index f s = Ok t /\
+            materialises t (src_shape s) (fun idx => option_map (f idx) (src_get s idx)).
+Proof. exact @ctor_map_with_index. Qed.
+
+Theorem C13_elementwise_constructed : forall A (f : A -> A -> A) (l r : tsrc A),
+  constructed l -> constructed r ->
+  (src_shape l = src_shape r ->
+   exists t, view_elementwise f l r = Ok t /\ materialises t (src_shape l) (zip_get f l r)) /\
+  (src_shape l <> src_shape r -> view_elementwise f l r = Panic).
+Proof. exact @ctor_elementwise. Qed.
+
+Theorem C13_elementwise_with_index_constructed : forall A (f : list N -> A -> A -> A) (l r : tsrc A),
+  constructed l -> constructed r -> src_shape l = src_shape r ->
+  exists t, view_elementwise_with_index f l r = Ok t /\
+            materialises t (src_shape l) (fun idx => zip_get (f idx) l r idx).
+Proof. exact @ctor_elementwise_with_index. Qed.
+
+Theorem C13_map_mut_with_index_constructed : forall A (f : list N -> A -> A) (s : tsrc A),
+  constructed s ->
+  let s' := view_map_mut_with_index f s in
+  src_wf s' /\ src_shape s' = src_shape s /\
+  forall x, in_range x (lens_of (src_shape s)) -> src_get s' x = option_map (f x) (src_get s x).
+Proof. exact @ctor_map_mut_with_index. Qed.
+
+Theorem C13_eq_iff_constructed : forall A (eqb : A -> A -> bool),
+  (forall x y, eqb x y = true <-> x = y) ->
+  forall l r : tsrc A, constructed l -> constructed r ->
+  (tensor_equality eqb l r = true <->
+   src_shape l = src_shape r /\
+   forall idx, in_range idx (lens_of (src_shape l)) -> src_get l idx = src_get r idx).
+Proof. exact @ctor_equality_iff. Qed.
+
+Theorem C13_similar_iff_constructed : forall A (eqb : A -> A -> bool),
+  (forall x y, eqb x y = true <-> x = y) ->
+  forall l r : tsrc A, constructed l -> constructed r ->
+  length (src_shape l) = length (src_shape r) ->
+  (tensor_similarity eqb l r = true <->
+   exists tbl, dm_new (names_of (src_shape r)) (names_of (src_shape l)) = Some tbl /\
+     src_shape l = src_shape (TAccess r tbl) /\
+     forall idx, in_range idx (lens_of (src_shape l)) ->
+       src_get l idx = src_get r (map_dimensions_to_source tbl idx 0)).
+Proof. exact @ctor_similarity_iff. Qed.
+
+Theorem C13_similar_sym_constructed : forall A (eqb : A -> A -> bool),
+  (forall x y, eqb x y = true <-> x = y) ->
+  forall l r : tsrc A, constructed l -> constructed r ->
+  length (src_shape l) = length (src_shape r) ->
+  tensor_similarity eqb l r = tensor_similarity eqb r l.
+Proof. exact @ctor_similarity_sym. Qed.
+
 (* non-vacuity: a 3x3 tensor (the square in-place path) and a 2x3 tensor (the fallback) meet the
    hypotheses; the exchanged ordering really transposes; a permuted copy is similar, not equal *)
 Example C13_nonvacuous :
@@ -244,6 +364,21 @@ Example C13_nonvacuous :
 Proof.
   cbv zeta. repeat split; try (vm_compute; reflexivity);
     try (cbn; repeat constructor; cbn; intuition discriminate).
+Qed.
+
+(* non-vacuity of `constructed`: a TensorAccess over a TensorRange over a TensorReverse over a 2x3
+   tensor, decoded from the case language, is constructed, has the expected shape and elements *)
+Example C13_nonvacuous_constructed :
+  exists s : tsrc Z, constructed s /\
+    src_shape s = [(1%nat, 2); (0%nat, 2)] /\ src_get s [0; 1] = Some 5%Z /\ src_get s [2; 0] = None.
+Proof.
+  destruct (dsrc 8 (SL [SZ 3; SL [SZ 2; SL [SZ 1; SL [SZ 0; SL [SL [SZ 0; SZ 2]; SL [SZ 1; SZ 3]];
+                                                     SL [SZ 1; SZ 2; SZ 3; SZ 4; SZ 5; SZ 6]];
+                                         SL [SZ 1]];
+                              SL [SL [SZ 0; SZ 2]; SL [SZ 1; SZ 2]]];
+                     SL [SZ 1; SZ 0]])%Z) as [[s| |]|] eqn:E; try (vm_compute in E; discriminate).
+  exists s. split; [eapply dsrc_constructed; exact E|].
+  vm_compute in E. injection E as <-. vm_compute. repeat split.
 Qed.
 
 Print Assumptions C13_iter_collects.
@@ -278,3 +413,19 @@ Print Assumptions C13_similar_sym.
 Print Assumptions C13_access_total.
 Print Assumptions C13_eq_implies_similar.
 Print Assumptions C13_similar_refl.
+Print Assumptions C13_contract.
+Print Assumptions C13_constructed_good_view.
+Print Assumptions C13_constructed_wf.
+Print Assumptions C13_wf_contract.
+Print Assumptions C13_case_language_constructed.
+Print Assumptions C13_wf_lens.
+Print Assumptions C13_reorder_constructed.
+Print Assumptions C13_transpose_constructed.
+Print Assumptions C13_map_constructed.
+Print Assumptions C13_map_with_index_constructed.
+Print Assumptions C13_elementwise_constructed.
+Print Assumptions C13_elementwise_with_index_constructed.
+Print Assumptions C13_map_mut_with_index_constructed.
+Print Assumptions C13_eq_iff_constructed.
+Print Assumptions C13_similar_iff_constructed.
+Print Assumptions C13_similar_sym_constructed.
